@@ -35,7 +35,7 @@ def gen_cases(ctx):
                         tail = rng.randrange(100)
                         nn = k
                     else:
-                        table[k] = [kind] if kind != 'e' else ['e', rng.choice([5, 11, 17, 95]) if rng.random() < 0.3 else rng.randrange(100)]   # id = 5 mod 6: StopIteration
+                        table[k] = [kind] if kind != 'e' else ['e', rng.choice([5, 12, 19, 6, 13, 20]) if rng.random() < 0.35 else rng.randrange(100)]   # id = 5 / 6 mod 7: StopIteration / multiprocessing.TimeoutError
                         nn = n
                     cfg = c01.rand_cfg(rng)
                     cfg['maxtasksperchild'] = None
@@ -50,6 +50,8 @@ def gen_cases(ctx):
                     sched = None if mode == 'free' else dict(priority=prio, quiet_ms=15)
                     base = dict(cfg=cfg, n=nn, tail=tail, table=table, fkind=rng.choice(['module', 'lambda', 'closure']),
                                 kwargs={}, schedule=sched, demand=['N*', 'A', 'A'], label='%s:%s' % (kind, mode), kind=kind, k=k)
+                    if rng.random() < 0.3:
+                        base['library_warnings_are_errors'] = True
                     if kind == 'src' and rng.random() < 0.5:
                         base['resume'] = rng.choice([1, 2, 4])      # a source that could go on after its exception (csv-reader like)
                     cases.append(base)
